@@ -1,7 +1,8 @@
 // C18 correspondence harness — independent objects used from different threads.
 //
 // Line protocol (one result line per op line):
-//   case <id>                              -> "case"                       (forgets registered workloads)
+//   case <id> [eth:<n>|ip:<n>]...          -> "case"                       (forgets registered workloads; the listed user
+//        allocators are registered, in that order, as described under `reg`)
 //   w <tid> crc <iters> <hex>
 //   w <tid> <kind> <iters> <seed> [alone=] kind in parse|build|copy|addr|reasm|follow|wep|wpa2
 //        registers a workload.  Default mode: -> "w <tid> reg" (nothing is executed yet).
@@ -14,6 +15,10 @@
 //        repeated <reps> times.  d_i is the digest thread i obtained (MIXED:<a>/<b> if repetitions disagree);
 //        s_i is the digest of the same workload executed once more afterwards on a single thread of that process.
 //        races = ThreadSanitizer reports raised during the op.
+//   reg <eth|ip> <id>                      -> "reg <fam> <id>"   (before the first `w` of the case) a user allocator for that ether type /
+//        IP protocol is registered — in the forked `go` child on its main thread before any thread is created and with no
+//        parse in between (and in the child of every run-alone `w` of the case); k-th registration of a family uses UserPDU<k>
+//   round-2 kinds: user flag fcs cksum addrio dns opts rtap dot11 serall ack tkip ccmp
 //   selftest                               -> "selftest races=<n>"        deliberate race inside the harness (n must be > 0 under TSan)
 //   stat <kind> <iters> <seed>             -> "stat <digest> <counter>=<n> …"  what a workload exercises (evidence)
 //
@@ -22,6 +27,11 @@
 #include <tins/tins.h>
 #include <tins/tcp_ip/stream_follower.h>
 #include <tins/ip_reassembler.h>
+#include <tins/tcp_ip/ack_tracker.h>
+#include <tins/detail/pdu_helpers.h>
+#include <tins/pdu_allocator.h>
+#include <tins/loopback.h>
+#include <sstream>
 #include <atomic>
 #include <thread>
 #include <functional>
@@ -642,11 +652,12 @@ static const char* const TKIP_PACKETS[] = {
 
 
 // wpa2: the captured handshakes + data frames of libtins' own test-suite through a thread-private WPA2Decrypter
-std::string wl_wpa2(uint32_t iters, uint64_t seed, Yielder& y) {
+std::string wl_wpa2(uint32_t iters, uint64_t seed, Yielder& y, int only = -1) {
     Dig d; Rng r(seed);
     for (uint32_t it = 0; it < iters; ++it) {
         try {
             int which = int(r.below(3));
+            if (only == 2) which = 2; else if (only == 0) which = int(r.below(2));
             const char* const* pk = which == 0 ? CCMP_PACKETS : which == 1 ? CCMP_QOS_PACKETS : TKIP_PACKETS;
             Crypto::WPA2Decrypter dec;
             bool wrong = r.chance(1, 4);
@@ -664,6 +675,574 @@ std::string wl_wpa2(uint32_t iters, uint64_t seed, Yielder& y) {
             }
             d.u(dec.get_keys().size());
         } catch (const std::exception& e) { d.str("wpa2:" + vh::exc_name(e)); }
+        y.maybe();
+    }
+    return d.hex();
+}
+
+
+// ================================================================== round 2: one workload per path that could grow a
+// lazily initialised table or shared scratch state.  Every one of them reaches its sensitive call in its FIRST
+// iteration, so that in a cold process (forked `go` child) the first calls of all threads meet right after the barrier.
+
+// user-defined PDUs for the registry scenarios (Allocators::register_allocator BEFORE the threads start)
+template<int N>
+class UserPDU : public PDU {
+public:
+    static const PDU::PDUType pdu_flag = static_cast<PDU::PDUType>(PDU::USER_DEFINED_PDU + N);
+    UserPDU() {}
+    explicit UserPDU(const bytes& b) : data_(b) {}
+    UserPDU(const uint8_t* b, uint32_t n) : data_(b, b + n) {}
+    UserPDU* clone() const { return new UserPDU(*this); }
+    uint32_t header_size() const { return uint32_t(data_.size()); }
+    PDUType pdu_type() const { return pdu_flag; }
+    void write_serialization(uint8_t* buf, uint32_t sz) { std::copy(data_.begin(), data_.begin() + std::min<size_t>(sz, data_.size()), buf); }
+    bytes data_;
+};
+template<int N> const PDU::PDUType UserPDU<N>::pdu_flag;
+
+struct Reg { std::string fam; unsigned id; };
+
+void apply_regs(const std::vector<Reg>& regs) {
+    int ne = 0, ni = 0;
+    for (size_t i = 0; i < regs.size(); ++i) {
+        const Reg& r = regs[i];
+        if (r.fam == "eth") {
+            switch (ne++) {
+            case 0: Allocators::register_allocator<EthernetII, UserPDU<0> >(uint16_t(r.id)); break;
+            case 1: Allocators::register_allocator<EthernetII, UserPDU<1> >(uint16_t(r.id)); break;
+            case 2: Allocators::register_allocator<EthernetII, UserPDU<2> >(uint16_t(r.id)); break;
+            default: Allocators::register_allocator<EthernetII, UserPDU<3> >(uint16_t(r.id)); break;
+            }
+        } else {
+            switch (ni++) {
+            case 0: Allocators::register_allocator<IP, UserPDU<4> >(uint8_t(r.id)); break;
+            case 1: Allocators::register_allocator<IP, UserPDU<5> >(uint8_t(r.id)); break;
+            case 2: Allocators::register_allocator<IP, UserPDU<6> >(uint8_t(r.id)); break;
+            default: Allocators::register_allocator<IP, UserPDU<7> >(uint8_t(r.id)); break;
+            }
+        }
+    }
+}
+
+static const uint16_t ETH_IDS[] = {0x88b5, 0x88b6, 0x88b7, 0x88b8, 0x9000, 0x0101};
+static const uint8_t IP_IDS[] = {253, 254, 143, 200, 99, 252};
+
+void put16(bytes& b, uint16_t v) { b.push_back(uint8_t(v >> 8)); b.push_back(uint8_t(v)); }
+void put(bytes& b, const bytes& x) { b.insert(b.end(), x.begin(), x.end()); }
+
+// user: frames carrying non-built-in ether types / IP protocols (registered by the scenario or not), hand-assembled
+// so that nothing is looked up before the parse; then the same through the API (serialisation consults pdu_types)
+std::string wl_user(uint32_t iters, uint64_t seed, Yielder& y) {
+    Dig d; Rng r(seed);
+    for (uint32_t it = 0; it < iters; ++it) {
+        uint16_t et = ETH_IDS[r.below(6)];
+        uint8_t pr = IP_IDS[r.below(6)];
+        bytes pay = r.blob(r.range(4, 40));
+        bytes b;
+        int shape = int(r.below(8));
+        try {
+            PDU* p = 0;
+            switch (shape) {
+            case 0: put(b, r.blob(12)); put16(b, et); put(b, pay); p = new EthernetII(b.data(), uint32_t(b.size())); break;
+            case 1: put(b, r.blob(12)); put16(b, 0x8100); put16(b, uint16_t(r.below(4096))); put16(b, et); put(b, pay);
+                    p = new EthernetII(b.data(), uint32_t(b.size())); break;
+            case 2: put16(b, 0); put16(b, 1); put16(b, 6); put(b, r.blob(8)); put16(b, et); put(b, pay);
+                    p = new SLL(b.data(), uint32_t(b.size())); break;
+            case 3: b.push_back(0xaa); b.push_back(0xaa); b.push_back(3); b.push_back(0); b.push_back(0); b.push_back(0); put16(b, et); put(b, pay);
+                    p = new SNAP(b.data(), uint32_t(b.size())); break;
+            case 4: case 5: {
+                b.push_back(0x45); b.push_back(0); put16(b, uint16_t(20 + pay.size())); put16(b, uint16_t(r.next())); put16(b, 0);
+                b.push_back(64); b.push_back(pr); put16(b, 0); put(b, r.blob(8)); put(b, pay);
+                if (shape == 5) { bytes e = r.blob(12); put16(e, 0x0800); put(e, b); p = new EthernetII(e.data(), uint32_t(e.size())); }
+                else p = new IP(b.data(), uint32_t(b.size()));
+                break;
+            }
+            case 6: {
+                b.push_back(0x60); b.push_back(0); b.push_back(0); b.push_back(0); put16(b, uint16_t(pay.size())); b.push_back(pr); b.push_back(64);
+                put(b, r.blob(32)); put(b, pay);
+                p = new IPv6(b.data(), uint32_t(b.size()));
+                break;
+            }
+            default: {      // through the API: the serialiser asks the registry for the identifier of the inner PDU's type
+                PDU* inner = 0;
+                int n = int(r.below(8));
+                switch (n) {
+                case 0: inner = new UserPDU<0>(pay); break; case 1: inner = new UserPDU<1>(pay); break;
+                case 2: inner = new UserPDU<2>(pay); break; case 3: inner = new UserPDU<3>(pay); break;
+                case 4: inner = new UserPDU<4>(pay); break; case 5: inner = new UserPDU<5>(pay); break;
+                case 6: inner = new UserPDU<6>(pay); break; default: inner = new UserPDU<7>(pay); break;
+                }
+                if (n < 4) { EthernetII* e = new EthernetII(rnd_hw(r), rnd_hw(r)); e->inner_pdu(inner); p = e; }
+                else if (r.chance(1, 2)) { IP* ip = new IP(rnd_v4(r), rnd_v4(r)); ip->inner_pdu(inner); p = ip; }
+                else { IPv6* v6 = new IPv6(rnd_v6(r), rnd_v6(r)); v6->inner_pdu(inner); p = v6; }
+                break;
+            }
+            }
+            digest_chain(d, *p);
+            y.note(p->inner_pdu() && p->inner_pdu()->pdu_type() >= PDU::USER_DEFINED_PDU ? "user:user-pdu-allocated" : "user:not-user");
+            delete p;
+        } catch (const std::exception& e) { d.str("user:" + vh::exc_name(e)); y.note("user:threw"); }
+        y.maybe();
+    }
+    return d.hex();
+}
+
+// flag: Internals::pdu_from_flag for ether types, IP protocols and PDU tags, built-in and not; tag <-> identifier maps
+std::string wl_flag(uint32_t iters, uint64_t seed, Yielder& y) {
+    Dig d; Rng r(seed);
+    std::vector<bytes> bufs;
+    {
+        Rng f(7);
+        bufs.push_back((IP("10.0.0.1", "10.0.0.2") / UDP(53, 1053) / RawPDU("0123456789abcdef0123456789abcdef")).serialize());
+        bufs.push_back((IPv6("::1", "::2") / TCP(80, 1080) / RawPDU("0123456789abcdef")).serialize());
+        bufs.push_back(ARP("10.0.0.1", "10.0.0.2", "00:01:02:03:04:05", "00:01:02:03:04:06").serialize());
+        Dot11Beacon bc; bc.ssid("flag"); bufs.push_back(bc.serialize());
+        bufs.push_back((EthernetII() / IP() / TCP()).serialize());
+        bufs.push_back(bytes(64, 0));
+    }
+    static const uint16_t ET[] = {0x0800, 0x86dd, 0x0806, 0x8863, 0x8864, 0x888e, 0x8100, 0x88a8, 0x9100, 0x8847,
+                                  0x88b5, 0x88b6, 0x88b7, 0x88b8, 0x9000, 0x0101, 0x0000, 0xffff};
+    for (uint32_t it = 0; it < iters; ++it) {
+        const bytes& b = bufs[r.below(uint32_t(bufs.size()))];
+        PDU* p = 0;
+        try {
+            int which = int(r.below(5));
+            bool raw = r.chance(1, 2);
+            if (which == 0) {
+                uint16_t e = r.chance(1, 8) ? uint16_t(r.next()) : ET[r.below(18)];
+                d.u(e);
+                p = Internals::pdu_from_flag(Constants::Ethernet::e(e), b.data(), uint32_t(b.size()), raw);
+            } else if (which == 1) {
+                uint8_t pr = r.chance(1, 2) ? IP_IDS[r.below(6)] : uint8_t(r.next());
+                d.u(pr);
+                p = Internals::pdu_from_flag(Constants::IP::e(pr), b.data(), uint32_t(b.size()), raw);
+            } else if (which == 2) {
+                unsigned t = r.chance(1, 4) ? PDU::USER_DEFINED_PDU + r.below(9) : r.below(80);
+                d.u(t);
+                p = Internals::pdu_from_flag(PDU::PDUType(t), b.data(), uint32_t(b.size()));
+            } else {
+                unsigned t = r.chance(1, 2) ? PDU::USER_DEFINED_PDU + r.below(9) : r.below(80);
+                d.u(t);
+                d.u(Internals::pdu_flag_to_ether_type(PDU::PDUType(t)));
+                d.u(Internals::pdu_flag_to_ip_type(PDU::PDUType(t)));
+                uint16_t e = ET[r.below(18)];
+                d.u(Internals::ether_type_to_pdu_flag(Constants::Ethernet::e(e)));
+                d.u(Internals::ip_type_to_pdu_flag(Constants::IP::e(uint8_t(r.next()))));
+            }
+            if (p) { d.u(p->pdu_type()); d.u(p->size()); y.note("flag:allocated"); delete p; }
+            else { d.str("null"); y.note("flag:null"); }
+        } catch (const std::exception& e) { d.str("flag:" + vh::exc_name(e)); y.note("flag:threw"); }
+        y.maybe();
+    }
+    return d.hex();
+}
+
+// fcs: RadioTap frames that announce an FCS: the serialiser computes CRC-32 over the inner PDU (first iteration = first
+// CRC of the process); the trailer is compared with the bit-wise reference
+std::string wl_fcs(uint32_t iters, uint64_t seed, Yielder& y) {
+    Dig d; Rng r(seed);
+    for (uint32_t it = 0; it < iters; ++it) {
+        try {
+            Dot11Data data;
+            data.addr1(rnd_hw(r)); data.addr2(rnd_hw(r)); data.addr3(rnd_hw(r));
+            data.inner_pdu(RawPDU(r.blob(r.range(1, 200))));
+            RadioTap rt;
+            rt.flags(RadioTap::FCS);
+            rt.inner_pdu(data);
+            bytes b = rt.serialize();
+            bytes inner = data.serialize();
+            uint32_t want = ref_crc32(inner), got = 0;
+            if (b.size() >= 4) for (int i = 0; i < 4; ++i) got |= uint32_t(b[b.size() - 4 + i]) << (8 * i);
+            d.buf(b);
+            d.str(want == got ? "fcs-ok" : "FCS-WRONG");
+            y.note(want == got ? "fcs:trailer-matches-reference" : "fcs:WRONG");
+        } catch (const std::exception& e) { d.str("fcs:" + vh::exc_name(e)); }
+        y.maybe();
+    }
+    return d.hex();
+}
+
+bool inet_sum_ok(const bytes& pseudo, const uint8_t* seg, size_t n) {
+    uint32_t s = 0;
+    for (size_t i = 0; i + 1 < pseudo.size(); i += 2) s += (uint32_t(pseudo[i]) << 8) | pseudo[i + 1];
+    for (size_t i = 0; i < n; i += 2) s += (uint32_t(seg[i]) << 8) | (i + 1 < n ? seg[i + 1] : 0);
+    while (s >> 16) s = (s & 0xffff) + (s >> 16);
+    return s == 0xffff;
+}
+
+// cksum: TCP / UDP / ICMPv6 / ICMP over IPv4 and IPv6 parents, three flows per thread used in turn (per-key caches see
+// different keys at overlapping times); every transport checksum verified against the pseudo header by hand
+std::string wl_cksum(uint32_t iters, uint64_t seed, Yielder& y) {
+    Dig d; Rng r(seed);
+    IPv4Address s4[3], d4[3]; IPv6Address s6[3], d6[3];
+    for (int i = 0; i < 3; ++i) { s4[i] = rnd_v4(r); d4[i] = rnd_v4(r); s6[i] = rnd_v6(r); d6[i] = rnd_v6(r); }
+    for (uint32_t it = 0; it < iters; ++it) {
+        try {
+            int f = int(r.below(3));
+            bool v6 = r.chance(1, 2);
+            int l4 = int(r.below(v6 ? 3 : 4));      // 0 tcp, 1 udp, 2 icmpv6 (v6) / icmp (v4), 3 icmp
+            bytes pay = r.blob(r.below(80));
+            bytes b; size_t off; uint8_t proto;
+            if (v6) {
+                IPv6 ip(d6[f], s6[f]);
+                if (l4 == 0) { ip /= TCP(uint16_t(r.next()), uint16_t(r.next())); proto = 6; }
+                else if (l4 == 1) { ip /= UDP(uint16_t(r.next()), uint16_t(r.next())); proto = 17; }
+                else { ICMPv6 ic(ICMPv6::ECHO_REQUEST); ic.identifier(uint16_t(r.next())); ic.sequence(uint16_t(r.next())); ip /= ic; proto = 58; }
+                ip /= RawPDU(pay);
+                b = ip.serialize(); off = 40;
+                bytes ph(s6[f].begin(), s6[f].end()); ph.insert(ph.end(), d6[f].begin(), d6[f].end());
+                put16(ph, 0); put16(ph, uint16_t(b.size() - off)); put16(ph, 0); put16(ph, proto);
+                bool ok = b.size() >= off && inet_sum_ok(ph, b.data() + off, b.size() - off);
+                d.str(ok ? "sum-ok" : "SUM-WRONG"); y.note(ok ? "cksum:verified-v6" : "cksum:WRONG");
+            } else {
+                IP ip(d4[f], s4[f]);
+                if (l4 == 0) { ip /= TCP(uint16_t(r.next()), uint16_t(r.next())); proto = 6; }
+                else if (l4 == 1) { ip /= UDP(uint16_t(r.next()), uint16_t(r.next())); proto = 17; }
+                else { ICMP ic(ICMP::ECHO_REQUEST); ic.id(uint16_t(r.next())); ip /= ic; proto = 1; }
+                ip /= RawPDU(pay);
+                b = ip.serialize(); off = 20;
+                bytes ph;
+                if (proto != 1) {
+                    uint32_t a = uint32_t(s4[f]), c = uint32_t(d4[f]);        // network order in memory
+                    const uint8_t* pa = reinterpret_cast<const uint8_t*>(&a); const uint8_t* pc = reinterpret_cast<const uint8_t*>(&c);
+                    ph.insert(ph.end(), pa, pa + 4); ph.insert(ph.end(), pc, pc + 4);
+                    put16(ph, proto); put16(ph, uint16_t(b.size() - off));
+                }
+                bool ok = b.size() >= off && inet_sum_ok(ph, b.data() + off, b.size() - off) && inet_sum_ok(bytes(), b.data(), 20);
+                d.str(ok ? "sum-ok" : "SUM-WRONG"); y.note(ok ? "cksum:verified-v4" : "cksum:WRONG");
+            }
+            d.buf(b);
+        } catch (const std::exception& e) { d.str("cksum:" + vh::exc_name(e)); }
+        y.maybe();
+    }
+    return d.hex();
+}
+
+// addrio: text conversion of the address classes in both directions through every entry point (to_string,
+// operator<<, constructors from text incl. malformed text), prefix masks, ranges, hashing
+std::string wl_addrio(uint32_t iters, uint64_t seed, Yielder& y) {
+    Dig d; Rng r(seed);
+    static const char* const BAD[] = {"", "1.2.3", "1.2.3.4.5", "256.1.1.1", "a.b.c.d", "::g", "1::2::3", ":::", "00:11:22:33:44", "zz:11:22:33:44:55", "1.2.3.4 "};
+    for (uint32_t it = 0; it < iters; ++it) {
+        try {
+            IPv4Address a = rnd_v4(r);
+            std::ostringstream os;
+            os << a;
+            d.str(os.str()); d.str(a.to_string());
+            d.u(uint32_t(IPv4Address(os.str())));
+            IPv6Address b = rnd_v6(r);
+            if (r.chance(1, 3)) { bytes z(16, 0); z[r.below(16)] = uint8_t(r.next()); z[15] = uint8_t(r.next()); b = IPv6Address(z.data()); }
+            std::ostringstream os6; os6 << b;
+            d.str(os6.str()); d.str(b.to_string());
+            IPv6Address b2(os6.str());
+            d.raw(b2.begin(), 16); d.u(b2 == b ? 1 : 0);
+            HWAddress<6> h = rnd_hw(r);
+            std::ostringstream osh; osh << h;
+            d.str(osh.str()); d.str(h.to_string());
+            HWAddress<6> h2(osh.str());
+            d.u(h2 == h ? 1 : 0);
+            HWAddress<8> h8(r.blob(8).data());
+            d.str(h8.to_string());
+            d.u(uint32_t(IPv4Address::from_prefix_length(r.below(33))));
+            IPv6Address m6 = IPv6Address::from_prefix_length(r.below(129));
+            d.raw(m6.begin(), 16);
+            IPv6Address masked = b & m6;
+            d.str(masked.to_string());
+            d.u(uint32_t(a & IPv4Address::from_prefix_length(r.below(33))));
+            d.u(std::hash<IPv4Address>()(a) == std::hash<IPv4Address>()(IPv4Address(a.to_string())) ? 1 : 0);
+            d.u(std::hash<IPv6Address>()(b) == std::hash<IPv6Address>()(b2) ? 1 : 0);
+            d.u(std::hash<HWAddress<6> >()(h) == std::hash<HWAddress<6> >()(h2) ? 1 : 0);
+            IPv6Range rg = b / 124;
+            uint32_t n = 0;
+            for (IPv6Range::const_iterator i = rg.begin(); i != rg.end() && n < 20; ++i, ++n) d.str(i->to_string());
+            const char* bad = BAD[r.below(11)];
+            try { IPv4Address x(bad); d.u(uint32_t(x)); } catch (const std::exception& e) { d.str(vh::exc_name(e)); }
+            try { IPv6Address x(bad); d.str(x.to_string()); } catch (const std::exception& e) { d.str(vh::exc_name(e)); }
+            try { HWAddress<6> x(bad); d.str(x.to_string()); } catch (const std::exception& e) { d.str(vh::exc_name(e)); }
+            y.note("addrio:iterations");
+        } catch (const std::exception& e) { d.str("addrio:" + vh::exc_name(e)); y.note("addrio:threw"); }
+        y.maybe();
+    }
+    return d.hex();
+}
+
+// dns: name encode / decode, records of several types composed into a message, serialised, decoded again
+std::string wl_dns(uint32_t iters, uint64_t seed, Yielder& y) {
+    Dig d; Rng r(seed);
+    for (uint32_t it = 0; it < iters; ++it) {
+        try {
+            std::string nm = rnd_name(r);
+            std::string enc = DNS::encode_domain_name(nm);
+            d.str(enc); d.str(DNS::decode_domain_name(enc));
+            DNS dns;
+            dns.id(uint16_t(r.next())); dns.type(DNS::RESPONSE); dns.opcode(uint8_t(r.below(3))); dns.rcode(uint8_t(r.below(6)));
+            int nq = 1 + int(r.below(3));
+            for (int i = 0; i < nq; ++i) dns.add_query(DNS::query(i == 0 ? nm : rnd_name(r), r.chance(1, 2) ? DNS::A : DNS::AAAA, DNS::INTERNET));
+            int na = int(r.below(5));
+            for (int i = 0; i < na; ++i) {
+                switch (r.below(5)) {
+                case 0: dns.add_answer(DNS::resource(nm, rnd_v4(r).to_string(), DNS::A, DNS::INTERNET, uint32_t(r.below(86400)))); break;
+                case 1: dns.add_answer(DNS::resource(nm, rnd_v6(r).to_string(), DNS::AAAA, DNS::INTERNET, uint32_t(r.below(86400)))); break;
+                case 2: dns.add_answer(DNS::resource(rnd_name(r), rnd_name(r), DNS::CNAME, DNS::INTERNET, uint32_t(r.below(86400)))); break;
+                case 3: dns.add_authority(DNS::resource(rnd_name(r), rnd_name(r), DNS::NS, DNS::INTERNET, uint32_t(r.below(86400)))); break;
+                default: dns.add_additional(DNS::resource(nm, rnd_name(r), DNS::TXT, DNS::INTERNET, uint32_t(r.below(86400)))); break;
+                }
+            }
+            bytes b = dns.serialize();
+            d.buf(b);
+            DNS back(b.data(), uint32_t(b.size()));
+            digest_dns(d, back);
+            DNS::resources_type au = back.authority(), ad = back.additional();
+            for (DNS::resources_type::const_iterator i = au.begin(); i != au.end(); ++i) { d.str(i->dname()); d.str(i->data()); }
+            for (DNS::resources_type::const_iterator i = ad.begin(); i != ad.end(); ++i) { d.str(i->dname()); d.str(i->data()); }
+            y.note("dns:composed-and-decoded");
+        } catch (const std::exception& e) { d.str("dns:" + vh::exc_name(e)); y.note("dns:threw"); }
+        y.maybe();
+    }
+    return d.hex();
+}
+
+// opts: typed option setters, serialisation, parse, typed getters (TCP, IP, DHCP, ICMPv6, Dot11 tagged parameters)
+std::string wl_opts(uint32_t iters, uint64_t seed, Yielder& y) {
+    Dig d; Rng r(seed);
+    for (uint32_t it = 0; it < iters; ++it) {
+        try {
+            TCP tcp(1, 2);
+            tcp.mss(uint16_t(r.next())); tcp.winscale(uint8_t(r.below(15))); tcp.sack_permitted();
+            tcp.timestamp(uint32_t(r.next()), uint32_t(r.next())); tcp.altchecksum(TCP::CHK_8FLETCHER);
+            TCP::sack_type sk; for (uint32_t i = 0, n = 2 * r.range(1, 2); i < n; ++i) sk.push_back(uint32_t(r.next()));
+            tcp.sack(sk);
+            bytes tb = tcp.serialize();
+            TCP t2(tb.data(), uint32_t(tb.size()));
+            d.u(t2.mss()); d.u(t2.winscale()); d.u(t2.has_sack_permitted() ? 1 : 0); d.u(t2.timestamp().first); d.u(t2.timestamp().second);
+            d.u(t2.altchecksum()); d.u(t2.sack().size());
+            try { d.u(t2.search_option(TCP::SACK) ? 1 : 0); } catch (const std::exception& e) { d.str(vh::exc_name(e)); }
+
+            IP ip("1.2.3.4", "5.6.7.8");
+            IP::generic_route_option_type::routes_type rts; for (uint32_t i = 0, n = r.range(1, 3); i < n; ++i) rts.push_back(rnd_v4(r));
+            switch (r.below(3)) {
+            case 0: ip.lsrr(IP::lsrr_type(4, rts)); break;
+            case 1: ip.ssrr(IP::ssrr_type(4, rts)); break;
+            default: ip.record_route(IP::record_route_type(4, rts)); break;
+            }
+            ip.stream_identifier(uint16_t(r.next())); ip.noop(); ip.eol();
+            bytes ib = ip.serialize();
+            IP i2(ib.data(), uint32_t(ib.size()));
+            d.buf(ib); d.u(i2.stream_identifier());
+            try { d.u(i2.lsrr().routes.size()); } catch (const std::exception& e) { d.str(vh::exc_name(e)); }
+            try { d.u(i2.ssrr().routes.size()); } catch (const std::exception& e) { d.str(vh::exc_name(e)); }
+            try { d.u(i2.record_route().routes.size()); } catch (const std::exception& e) { d.str(vh::exc_name(e)); }
+
+            DHCP dh;
+            dh.type(DHCP::OFFER); dh.server_identifier(rnd_v4(r)); dh.lease_time(uint32_t(r.next())); dh.renewal_time(uint32_t(r.next()));
+            dh.rebind_time(uint32_t(r.next())); dh.subnet_mask(rnd_v4(r)); dh.broadcast(rnd_v4(r)); dh.requested_ip(rnd_v4(r));
+            std::vector<IPv4Address> lst; for (uint32_t i = 0, n = r.range(1, 3); i < n; ++i) lst.push_back(rnd_v4(r));
+            dh.routers(lst); dh.domain_name_servers(lst); dh.domain_name(rnd_name(r)); dh.hostname(rnd_name(r)); dh.end();
+            bytes db = dh.serialize();
+            DHCP d2(db.data(), uint32_t(db.size()));
+            d.u(d2.type()); d.u(uint32_t(d2.server_identifier())); d.u(d2.lease_time()); d.u(d2.renewal_time()); d.u(d2.rebind_time());
+            d.u(uint32_t(d2.subnet_mask())); d.u(uint32_t(d2.broadcast())); d.u(uint32_t(d2.requested_ip()));
+            d.u(d2.routers().size()); d.u(d2.domain_name_servers().size()); d.str(d2.domain_name()); d.str(d2.hostname());
+
+            ICMPv6 ic(ICMPv6::ROUTER_ADVERT);
+            ic.source_link_layer_addr(rnd_hw(r)); ic.target_link_layer_addr(rnd_hw(r)); ic.mtu(ICMPv6::mtu_type(0, uint32_t(r.next())));
+            bytes cb = (IPv6("::1", "::2") / ic).serialize();
+            IPv6 v2(cb.data(), uint32_t(cb.size()));
+            const ICMPv6& c2 = v2.rfind_pdu<ICMPv6>();
+            d.str(c2.source_link_layer_addr().to_string()); d.str(c2.target_link_layer_addr().to_string()); d.u(c2.mtu().second);
+
+            Dot11Beacon bc;
+            bc.ssid(rnd_name(r)); bc.ds_parameter_set(uint8_t(r.range(1, 13))); bc.erp_information(uint8_t(r.next())); bc.ibss_parameter_set(uint16_t(r.next()));
+            Dot11ManagementFrame::rates_type rates; rates.push_back(1.0f); rates.push_back(2.0f); rates.push_back(5.5f);
+            bc.supported_rates(rates); bc.extended_supported_rates(rates); bc.power_capability(uint8_t(r.next()), uint8_t(r.next()));
+            bc.challenge_text(rnd_name(r)); bc.rsn_information(r.chance(1, 2) ? RSNInformation::wpa2_psk() : RSNInformation());
+            bytes bb = bc.serialize();
+            Dot11Beacon b2(bb.data(), uint32_t(bb.size()));
+            d.str(b2.ssid()); d.u(b2.ds_parameter_set()); d.u(b2.erp_information()); d.u(b2.ibss_parameter_set());
+            d.u(b2.supported_rates().size()); d.u(b2.extended_supported_rates().size()); d.u(b2.power_capability().first);
+            d.str(b2.challenge_text()); d.u(b2.rsn_information().version());
+            y.note("opts:iterations");
+        } catch (const std::exception& e) { d.str("opts:" + vh::exc_name(e)); y.note("opts:threw"); }
+        y.maybe();
+    }
+    return d.hex();
+}
+
+// rtap: RadioTap with a random subset of fields (writer keeps them ordered by the field table), serialised, parsed
+// (parser walks the field table: sizes and alignments), getters
+std::string wl_rtap(uint32_t iters, uint64_t seed, Yielder& y) {
+    Dig d; Rng r(seed);
+    for (uint32_t it = 0; it < iters; ++it) {
+        try {
+            RadioTap rt;
+            for (int n = int(r.range(1, 10)); n > 0; --n) {
+                switch (r.below(14)) {
+                case 0: rt.tsft(r.next()); break;
+                case 1: rt.flags(RadioTap::FrameFlags(r.chance(1, 2) ? RadioTap::FCS : RadioTap::PREAMBLE)); break;
+                case 2: rt.rate(uint8_t(r.next())); break;
+                case 3: rt.channel(uint16_t(2412 + 5 * r.below(13)), uint16_t(r.next())); break;
+                case 4: rt.dbm_signal(int8_t(r.next())); break;
+                case 5: rt.dbm_noise(int8_t(r.next())); break;
+                case 6: rt.signal_quality(uint16_t(r.next())); break;
+                case 7: rt.antenna(uint8_t(r.next())); break;
+                case 8: rt.db_signal(uint8_t(r.next())); break;
+                case 9: rt.rx_flags(uint16_t(r.next())); break;
+                case 10: rt.tx_flags(uint16_t(r.next())); break;
+                case 11: rt.data_retries(uint8_t(r.next())); break;
+                case 12: { RadioTap::mcs_type m; m.known = uint8_t(r.next()); m.flags = uint8_t(r.next()); m.mcs = uint8_t(r.next()); rt.mcs(m); break; }
+                default: { RadioTap::xchannel_type x; x.flags = uint32_t(r.next()); x.frequency = uint16_t(r.next()); x.channel = uint8_t(r.next()); x.max_power = uint8_t(r.next()); rt.xchannel(x); break; }
+                }
+            }
+            Dot11Data data; data.addr1(rnd_hw(r)); data.inner_pdu(RawPDU(r.blob(r.range(1, 30))));
+            rt.inner_pdu(data);
+            bytes b = rt.serialize();
+            d.buf(b);
+            RadioTap p(b.data(), uint32_t(b.size()));
+            d.u(p.present()); d.u(p.header_size()); d.u(p.trailer_size());
+            try { d.u(p.tsft()); } catch (const std::exception& e) { d.str(vh::exc_name(e)); }
+            try { d.u(p.flags()); } catch (const std::exception& e) { d.str(vh::exc_name(e)); }
+            try { d.u(p.rate()); } catch (const std::exception& e) { d.str(vh::exc_name(e)); }
+            try { d.u(p.channel_freq()); d.u(p.channel_type()); } catch (const std::exception& e) { d.str(vh::exc_name(e)); }
+            try { d.u(uint8_t(p.dbm_signal())); } catch (const std::exception& e) { d.str(vh::exc_name(e)); }
+            try { d.u(uint8_t(p.dbm_noise())); } catch (const std::exception& e) { d.str(vh::exc_name(e)); }
+            try { d.u(p.antenna()); } catch (const std::exception& e) { d.str(vh::exc_name(e)); }
+            try { d.u(p.rx_flags()); } catch (const std::exception& e) { d.str(vh::exc_name(e)); }
+            try { d.u(p.mcs().mcs); } catch (const std::exception& e) { d.str(vh::exc_name(e)); }
+            try { d.u(p.xchannel().frequency); } catch (const std::exception& e) { d.str(vh::exc_name(e)); }
+            bytes again = p.serialize();
+            d.buf(again);
+            y.note("rtap:iterations");
+        } catch (const std::exception& e) { d.str("rtap:" + vh::exc_name(e)); y.note("rtap:threw"); }
+        y.maybe();
+    }
+    return d.hex();
+}
+
+template<typename T> void dot11_one(Dig& d, Rng& r, Yielder& y) {
+    T f;
+    f.addr1(rnd_hw(r));
+    f.duration_id(uint16_t(r.next()));
+    bytes b = f.serialize();
+    d.buf(b);
+    Dot11* p = Dot11::from_bytes(b.data(), uint32_t(b.size()));
+    d.u(p->pdu_type()); d.u(p->type()); d.u(p->subtype()); d.u(p->pdu_type() == f.pdu_type() ? 1 : 0);
+    if (p->pdu_type() != f.pdu_type()) y.note("dot11:DISPATCH-DIFFERS"); else y.note("dot11:dispatched");
+    bytes again = p->serialize();
+    d.buf(again);
+    delete p;
+    RadioTap rt; rt.inner_pdu(f);
+    bytes rb = rt.serialize();
+    RadioTap rp(rb.data(), uint32_t(rb.size()));
+    d.u(rp.inner_pdu() ? rp.inner_pdu()->pdu_type() : 9999);
+}
+
+// dot11: every 802.11 frame class through serialisation and the Dot11::from_bytes dispatch (bare and under RadioTap)
+std::string wl_dot11(uint32_t iters, uint64_t seed, Yielder& y) {
+    Dig d; Rng r(seed);
+    for (uint32_t it = 0; it < iters; ++it) {
+        try {
+            switch ((it + r.below(2) * 7) % 21) {
+            case 0: dot11_one<Dot11Beacon>(d, r, y); break;
+            case 1: dot11_one<Dot11ProbeRequest>(d, r, y); break;
+            case 2: dot11_one<Dot11ProbeResponse>(d, r, y); break;
+            case 3: dot11_one<Dot11AssocRequest>(d, r, y); break;
+            case 4: dot11_one<Dot11AssocResponse>(d, r, y); break;
+            case 5: dot11_one<Dot11ReAssocRequest>(d, r, y); break;
+            case 6: dot11_one<Dot11ReAssocResponse>(d, r, y); break;
+            case 7: dot11_one<Dot11Authentication>(d, r, y); break;
+            case 8: dot11_one<Dot11Deauthentication>(d, r, y); break;
+            case 9: dot11_one<Dot11Disassoc>(d, r, y); break;
+            case 10: dot11_one<Dot11Data>(d, r, y); break;
+            case 11: dot11_one<Dot11QoSData>(d, r, y); break;
+            case 12: dot11_one<Dot11RTS>(d, r, y); break;
+            case 13: dot11_one<Dot11PSPoll>(d, r, y); break;
+            case 14: dot11_one<Dot11CFEnd>(d, r, y); break;
+            case 15: dot11_one<Dot11EndCFAck>(d, r, y); break;
+            case 16: dot11_one<Dot11Ack>(d, r, y); break;
+            case 17: dot11_one<Dot11BlockAckRequest>(d, r, y); break;
+            case 18: dot11_one<Dot11BlockAck>(d, r, y); break;
+            case 19: dot11_one<Dot11>(d, r, y); break;
+            default: dot11_one<Dot11ProbeResponse>(d, r, y); break;
+            }
+        } catch (const std::exception& e) { d.str("dot11:" + vh::exc_name(e)); y.note("dot11:threw"); }
+        y.maybe();
+    }
+    return d.hex();
+}
+
+#define SER_ONE(expr) do { try { bytes b_ = (expr).serialize(); d.buf(b_); y.note("serall:serialized"); } \
+                           catch (const std::exception& e_) { d.str("ser:" + vh::exc_name(e_)); y.note("serall:threw"); } } while (0)
+
+// serall: PDU::serialize of every PDU class (default constructed and stacked)
+std::string wl_serall(uint32_t iters, uint64_t seed, Yielder& y) {
+    Dig d; Rng r(seed);
+    for (uint32_t it = 0; it < iters; ++it) {
+        RawPDU raw(r.blob(r.range(1, 20)));
+        switch ((it + r.below(3) * 11) % 33) {
+        case 0: SER_ONE(EthernetII() / raw); break;
+        case 1: SER_ONE(Dot3() / LLC() / raw); break;
+        case 2: SER_ONE(SNAP() / IP() / raw); break;
+        case 3: SER_ONE(IP() / TCP() / raw); break;
+        case 4: SER_ONE(IPv6() / UDP() / raw); break;
+        case 5: SER_ONE(IP() / ICMP() / raw); break;
+        case 6: SER_ONE(IPv6() / ICMPv6() / raw); break;
+        case 7: SER_ONE(EthernetII() / ARP()); break;
+        case 8: SER_ONE(IP() / UDP(53, 53) / DNS()); break;
+        case 9: SER_ONE(IP() / UDP(67, 68) / DHCP()); break;
+        case 10: SER_ONE(IPv6() / UDP(547, 546) / DHCPv6()); break;
+        case 11: SER_ONE(BootP()); break;
+        case 12: SER_ONE(EthernetII() / Dot1Q(uint16_t(r.below(4096))) / IP() / raw); break;
+        case 13: SER_ONE(EthernetII() / RC4EAPOL()); break;
+        case 14: SER_ONE(EthernetII() / RSNEAPOL()); break;
+        case 15: SER_ONE(EthernetII() / PPPoE() / raw); break;
+        case 16: SER_ONE(Dot3() / LLC(0x42, 0x42) / STP()); break;
+        case 17: SER_ONE(SLL() / IP() / raw); break;
+        case 18: SER_ONE(Loopback() / IP() / raw); break;
+        case 19: SER_ONE(EthernetII() / MPLS() / raw); break;
+        case 20: SER_ONE(IP() / IPSecAH() / raw); break;
+        case 21: SER_ONE(IP() / IPSecESP() / raw); break;
+        case 22: SER_ONE(RadioTap() / Dot11Data() / raw); break;
+        case 23: SER_ONE(RadioTap() / Dot11Beacon()); break;
+        case 24: SER_ONE(RadioTap() / Dot11QoSData() / SNAP() / IP() / raw); break;
+        case 25: SER_ONE(IP() / UDP(4789, 4789) / VXLAN() / EthernetII() / raw); break;
+        case 26: SER_ONE(IP() / IP() / TCP() / raw); break;
+        case 27: SER_ONE(IPv6() / IPv6() / UDP() / raw); break;
+        case 28: SER_ONE(raw); break;
+        case 29: SER_ONE(EthernetII() / IP() / ICMP(ICMP::DEST_UNREACHABLE) / IP() / UDP()); break;
+        case 30: SER_ONE(Dot11ProbeRequest()); break;
+        case 31: SER_ONE(Dot11RTS()); break;
+        default: SER_ONE(IEEE802_3() / LLC() / raw); break;
+        }
+        y.maybe();
+    }
+    return d.hex();
+}
+
+// ack: TCP acknowledgements with SACK blocks through a thread-private AckTracker
+std::string wl_ack(uint32_t iters, uint64_t seed, Yielder& y) {
+    Dig d; Rng r(seed);
+    uint32_t ack = uint32_t(r.next());
+    if (r.chance(1, 3)) ack = 0xffffff00u + r.below(200);
+    TCPIP::AckTracker tr(ack, true);
+    for (uint32_t it = 0; it < iters; ++it) {
+        try {
+            TCP tcp(1, 2);
+            tcp.flags(TCP::ACK);
+            if (r.chance(2, 3)) ack += r.below(3000);
+            tcp.ack_seq(ack);
+            if (r.chance(1, 2)) {
+                TCP::sack_type sk;
+                uint32_t l = ack + 1 + r.below(2000);
+                for (uint32_t i = 0, n = r.range(1, 3); i < n; ++i) { uint32_t e = l + 1 + r.below(1500); sk.push_back(l); sk.push_back(e); l = e + 1 + r.below(1500); }
+                tcp.sack(sk);
+            }
+            IP pkt = IP("1.1.1.1", "2.2.2.2") / tcp;
+            tr.process_packet(pkt);
+            d.u(tr.ack_number()); d.u(tr.acked_intervals().iterative_size());
+            d.u(tr.is_segment_acked(ack + r.below(4000), 1 + r.below(1000)) ? 1 : 0);
+            y.note("ack:packets");
+        } catch (const std::exception& e) { d.str("ack:" + vh::exc_name(e)); }
         y.maybe();
     }
     return d.hex();
@@ -695,6 +1274,19 @@ std::string run_work(const Work& w, Yielder& y) {
     if (w.kind == "follow") return wl_follow(w.iters, w.seed, y);
     if (w.kind == "wep") return wl_wep(w.iters, w.seed, y);
     if (w.kind == "wpa2") return wl_wpa2(w.iters, w.seed, y);
+    if (w.kind == "tkip") return wl_wpa2(w.iters, w.seed, y, 2);
+    if (w.kind == "ccmp") return wl_wpa2(w.iters, w.seed, y, 0);
+    if (w.kind == "user") return wl_user(w.iters, w.seed, y);
+    if (w.kind == "flag") return wl_flag(w.iters, w.seed, y);
+    if (w.kind == "fcs") return wl_fcs(w.iters, w.seed, y);
+    if (w.kind == "cksum") return wl_cksum(w.iters, w.seed, y);
+    if (w.kind == "addrio") return wl_addrio(w.iters, w.seed, y);
+    if (w.kind == "dns") return wl_dns(w.iters, w.seed, y);
+    if (w.kind == "opts") return wl_opts(w.iters, w.seed, y);
+    if (w.kind == "rtap") return wl_rtap(w.iters, w.seed, y);
+    if (w.kind == "dot11") return wl_dot11(w.iters, w.seed, y);
+    if (w.kind == "serall") return wl_serall(w.iters, w.seed, y);
+    if (w.kind == "ack") return wl_ack(w.iters, w.seed, y);
     return "bad-kind";
 }
 
@@ -743,10 +1335,29 @@ static std::string in_child(const std::function<std::string()>& f) {
 int main(int argc, char** argv) {
     bool alone = argc > 1 && std::string(argv[1]) == "alone";
     std::vector<Work> works;
+    std::vector<Reg> regs;
     return vh::line_loop([&](const std::string& line) -> std::string {
         std::vector<std::string> w = vh::words(line);
         if (w.empty()) return "bad-op";
-        if (w[0] == "case") { works.clear(); return "case"; }
+        if (w[0] == "case") {
+            // `case <id> [eth:<id>|ip:<id>]...`: the registrations of the case travel on its first line (the case minimiser
+            // never drops that line, so the run-alone digests of the remaining workloads stay valid while it shrinks)
+            works.clear(); regs.clear();
+            for (size_t i = 2; i < w.size(); ++i) {
+                size_t c = w[i].find(':');
+                if (c == std::string::npos) return "bad-op";
+                Reg g; g.fam = w[i].substr(0, c); g.id = unsigned(strtoul(w[i].c_str() + c + 1, 0, 0));
+                if ((g.fam != "eth" && g.fam != "ip") || regs.size() >= 8) return "bad-op";
+                regs.push_back(g);
+            }
+            return "case";
+        }
+        if (w[0] == "reg" && w.size() >= 3) {       // recorded only: applied on the main thread of the forked child, before the threads exist
+            Reg g; g.fam = w[1]; g.id = unsigned(strtoul(w[2].c_str(), 0, 0));
+            if ((g.fam != "eth" && g.fam != "ip") || regs.size() >= 8 || !works.empty()) return "bad-op";
+            regs.push_back(g);
+            return "reg " + g.fam + " " + std::to_string(g.id);
+        }
         if (w[0] == "w" && w.size() >= 5) {
             Work k;
             k.tid = w[1]; k.kind = w[2]; k.iters = uint32_t(strtoul(w[3].c_str(), 0, 10)); k.seed = 0;
@@ -755,6 +1366,8 @@ int main(int argc, char** argv) {
             if (works.size() >= 64) return "bad-op";
             works.push_back(k);
             if (!alone) return "w " + k.tid + " reg";        // nothing runs in this process before the forked `go`
+            if (!regs.empty())      // the registries cannot be emptied again: a process of its own with this case's registrations
+                return in_child([&]() -> std::string { apply_regs(regs); Yielder none(0, false); return "w " + k.tid + " seq=" + guarded(k, none); });
             Yielder none(0, false);
             return "w " + k.tid + " seq=" + guarded(k, none);
         }
@@ -773,6 +1386,7 @@ int main(int argc, char** argv) {
             if (k.kind == "crc") return "bad-op";
             return in_child([&]() -> std::string {
                 std::map<std::string, unsigned> st;
+                apply_regs(regs);
                 Yielder yy(0, false); yy.stats = &st;
                 std::string dg = guarded(k, yy);
                 std::string s = "stat " + dg;
@@ -788,6 +1402,7 @@ int main(int argc, char** argv) {
             return in_child([&]() -> std::string {
             int before = g_reports.load();
             size_t n = works.size();
+            apply_regs(regs);           // ordinary use: registration first, on the only thread; NO parse on this thread before the threads start
             std::vector<std::string> first(n), mixed(n);
             for (uint32_t rep = 0; rep < reps; ++rep) {
                 std::vector<std::string> out(n);
@@ -798,7 +1413,7 @@ int main(int argc, char** argv) {
                     th.push_back(std::thread([&, i, rep]() {
                         Yielder y(yseed * 1000003ULL + i * 7919ULL + rep, true);
                         ready.fetch_add(1);
-                        while (!start.load()) sched_yield();
+                        for (unsigned spin = 0; !start.load(); ++spin) if (spin > 200000) sched_yield();     // spin: all threads leave within the same microsecond
                         out[i] = guarded(works[i], y);
                     }));
                 }
